@@ -23,6 +23,17 @@ KIND_TYPES = {
 ARRAY_TYPES = {"DIMENSION_TYPE.CA_SUBVAR", "DIMENSION_TYPE.MR_SUBVAR", "DIMENSION_TYPE.NUM_ARRAY"}
 
 
+def factory_body(ctx: Ctx, ci: ClassInfo, member: str = "factory") -> ast.expr:
+    """The factory as ONE expression, with the private helpers it calls on `cls` (static / class methods) inlined;
+    `_slice_idx_expr` stays symbolic (other rules recognise it by name)."""
+    from ..symex import Expander
+
+    fac = ctx.repo.lookup(ci, member)
+    if fac is None:
+        raise AnalysisError(f"factory vanished: {ci.qual}.{member}")
+    return Expander(ctx.repo, ci, stop=lambda m: m.name == "_slice_idx_expr").expand_member(fac)
+
+
 def factory_dispatch(ctx: Ctx, short: str, base_cls: str, kinds: List[Tuple[str, ...]], dim_expr_ok) -> Dict[Tuple[str, ...], Optional[ClassInfo]]:
     """Evaluate `Base.factory` for every kind tuple: which class is constructed.
 
@@ -34,7 +45,7 @@ def factory_dispatch(ctx: Ctx, short: str, base_cls: str, kinds: List[Tuple[str,
     fac = ctx.repo.lookup(ci, "factory")
     if fac is None:
         raise AnalysisError(f"factory vanished: {short}::{base_cls}.factory")
-    body = SUMMARIZER.summarize(fac.node)
+    body = factory_body(ctx, ci)
     mod = ci.module
     out: Dict[Tuple[str, ...], Optional[ClassInfo]] = {}
     for kinds_t in kinds:
